@@ -1,6 +1,16 @@
 import json, os, sys
 sys.path.insert(0, os.path.dirname(os.path.dirname(os.path.abspath(__file__))))
-from checks.registry import CHECKS, NOT_APPLICABLE
+import importlib
+from checks.registry import NOT_APPLICABLE, DISABLED
+CHECKS = {}
+for f in sorted(os.listdir("/verif/checks")):
+    if f.startswith("c") and f.endswith(".py") and f[1:-3].isdigit():
+        pid = f[:-3].upper()
+        if pid in DISABLED:
+            continue
+        mod = importlib.import_module("checks." + f[:-3])
+        if hasattr(mod, "REGISTRY"):
+            CHECKS[pid] = mod.REGISTRY
 props = [json.loads(l)["id"] for l in open("/verif/properties.jsonl")]
 m = {
     "version": 1,
